@@ -127,7 +127,7 @@ def gen_cases(tier, rng):
     sub = c14.gen_cases("quick", rng)
     stride = 1 if tier == "thorough" else 4
     for i, (line, tag) in enumerate(sub):
-        if tag == "edge" or i % stride == 0:
+        if tag in ("edge", "wrap") or i % stride == 0:
             cases.append((line, "charref"))
     # bounded-exhaustive token sequences around the constructs with long reconsume chains / look-aheads
     for prefix, alphabet, n, kw in GRAMMARS:
